@@ -14,6 +14,7 @@ import (
 	"encoding/json"
 	"fmt"
 	"math/rand"
+	"os"
 	"sort"
 	"strconv"
 	"strings"
@@ -1372,6 +1373,12 @@ func init() {
 		if err := json.Unmarshal(input, &in); err != nil {
 			r.Note("bad replay input: %v", err)
 			return
+		}
+		// main.go applies the -driver flag only after its replay branch: honour it here
+		for i, a := range os.Args {
+			if (a == "-driver" || a == "--driver") && i+1 < len(os.Args) {
+				driverPath = os.Args[i+1]
+			}
 		}
 		c01Compare(r, in.Dialect, []interface{}{in.Val}, "render")
 	}
